@@ -399,7 +399,7 @@ pub fn run(ctx: &Ctx) -> Report {
             }
         }
         // ---- (3) random histories, all backends, cross-word-size comparison implied by the common model ----
-        let nhist = ctx.pick(3, 400, 20000);
+        let nhist = ctx.pick(3, 3000, 30000);
         for hix in 0..nhist {
             let len = 1 + rng.below(ctx.pick(10, 60, 200)) as usize;
             let ops = random_ops(&mut rng, len, wbits, hix % 3 == 0);
@@ -427,7 +427,7 @@ fn cross_word_size(ctx: &Ctx, e: En, rep: &mut Report) {
     // ---- (5) explicit cross-word-size equality of the real images (no model involved) ----
     let mut rng = Rng::derive(ctx.seed, 0xC01FFFF + (e == En::LE) as u64);
     {
-        for _ in 0..ctx.pick(2, 200, 5000) {
+        for _ in 0..ctx.pick(2, 2000, 20000) {
             let l = 1 + rng.below(40) as usize;
             let ops = random_ops(&mut rng, l, 64, false);
             let mut images: Vec<(WWord, Vec<u8>)> = vec![];
@@ -524,7 +524,7 @@ mod borrowed {
     }
 
     pub fn run(e: En, w: WWord, rng: &mut Rng, ctx: &Ctx, rep: &mut Report) {
-        for _ in 0..ctx.pick(2, 100, 3000) {
+        for _ in 0..ctx.pick(2, 600, 5000) {
             let l = 1 + rng.below(30) as usize;
             let ops = random_ops(rng, l, w.bits(), true);
             match (e, w) {
